@@ -529,8 +529,15 @@ class MolGraph:
         :return: Subgraph
         """
         new_atoms = set(atoms)
+        for atom in new_atoms:
+            if atom not in self._atom_attrs:
+                raise KeyError(atom)
+        # keyed by the graph's own identifiers (in the graph's atom order),
+        # not by the objects of the caller's iterable (e.g. numpy integers)
         atom_attrs = {
-            atom: deepcopy(self._atom_attrs[atom]) for atom in new_atoms
+            atom: deepcopy(attrs)
+            for atom, attrs in self._atom_attrs.items()
+            if atom in new_atoms
         }
         bond_attrs = {
             bond: deepcopy(attrs)
@@ -538,8 +545,9 @@ class MolGraph:
             if new_atoms.issuperset(bond)
         }
         neighbors = {
-            atom: {n for n in self._neighbors[atom] if n in new_atoms}
-            for atom in new_atoms
+            atom: {n for n in nbrs if n in new_atoms}
+            for atom, nbrs in self._neighbors.items()
+            if atom in new_atoms
         }
         new_graph = self.__class__()
         new_graph._atom_attrs = atom_attrs
